@@ -223,3 +223,19 @@ MUTANTS += [
          old="            if old_cache.build_name() != build_name:\n                raise RuntimeError(\n                    'The cache file was created for the build named {:s}, '\n                    'which is different from the specified build name '\n                    '{:s}'.format(old_cache.build_name(), build_name))\n        elif",
          new="            pass\n        elif"),
 ]
+
+MUTANTS += [
+    # ---- C17 (sequential)
+    dict(name='c17_subbuild_no_entry_check', props=['C17'], file=FB,
+         old="        self._assert_not_finished()\n        if not isinstance(func_name, str):\n            raise TypeError('Function name must be a string')\n        if not callable(func):\n            raise TypeError('\"func\" must be callable')\n        sanitized_args, sanitized_kwargs = FileBuilder._sanitize_args(\n            args, kwargs, 'the subbuild function {:s}'.format(func_name))",
+         new="        if not isinstance(func_name, str):\n            raise TypeError('Function name must be a string')\n        if not callable(func):\n            raise TypeError('\"func\" must be callable')\n        sanitized_args, sanitized_kwargs = FileBuilder._sanitize_args(\n            args, kwargs, 'the subbuild function {:s}'.format(func_name))"),
+    dict(name='c17_root_builder_never_finished', props=['C17'], file=FB,
+         old="            try:\n                return builder._build(cache_filename, func, args, kwargs)\n            finally:\n                builder._is_finished_build = True",
+         new="            try:\n                return builder._build(cache_filename, func, args, kwargs)\n            finally:\n                builder._is_finished_build = False"),
+    dict(name='c17_build_file_no_entry_check', props=['C17'], file=FB,
+         old="        self._assert_not_finished()\n        filename = FileBuilder._sanitize_filename(filename)\n        if not isinstance(func_name, str):",
+         new="        filename = FileBuilder._sanitize_filename(filename)\n        if not isinstance(func_name, str):"),
+    dict(name='c17_nested_builders_not_fenced', props=['C17'], file=FB,
+         old="        operation = self._operation\n        if operation is not None:\n            is_finished = operation.is_finished\n        else:\n            is_finished = self._is_finished_build\n",
+         new="        operation = self._operation\n        if operation is not None:\n            is_finished = operation.is_finished and not operation.raised\n        else:\n            is_finished = self._is_finished_build\n"),
+]
